@@ -238,6 +238,39 @@ def r4_insertion_order(facts, rep):
         rep.obls.append(o)
 
 
+def r6_one_segment(facts, rep):
+    rep.rule("C14-R6", "one segment per build: the documents of a build are committed once, after the last asset (the session "
+                       "summary has exactly one commit, C14-R5); no function reachable from Db::load_bytes commits, merges or "
+                       "opens a writer, so that the index of a build is one segment in insertion order (several segments are "
+                       "ordered by tantivy through a randomly seeded map, and equal scores are then broken differently from "
+                       "build to build)")
+    from ..callgraph import CallGraph
+    cg = CallGraph(facts)
+    if facts.fn("db::Db::load_bytes") is None:
+        rep.ob("C14-R6", "anchor:db::Db::load_bytes", False, "anchor not found")
+        return
+    reach = cg.reachable(["db::Db::load_bytes"])
+    seg = ("tantivy::IndexWriter::commit", "tantivy::IndexWriter::prepare_commit", "tantivy::IndexWriter::merge",
+           "tantivy::IndexWriter::garbage_collect_files", "tantivy::Index::writer", "tantivy::IndexWriter::rollback",
+           "tantivy::IndexWriter::delete_all_documents", "tantivy::IndexWriter::delete_term", "tantivy::PreparedCommit")
+    n = 0
+    for p in sorted(reach):
+        b = cg.local.get(p)
+        if b is None:
+            continue
+        n += 1
+        for blk, t, sp, name in b.calls():
+            if any(name.startswith(x) for x in seg):
+                rep.ob("C14-R6", "segment-op:%s:%s" % (p, name.rsplit("::", 1)[-1]), False,
+                       "%s, on the loading path of an asset, calls %s: the build is no longer one segment written in one go" % (p, name),
+                       b.site(sp))
+    # positive control: the commit of the session itself is seen by the same census
+    sess = cg.reachable(["db::Db::open_inner"])
+    commits = [(p, name) for p in sess for blk, t, sp, name in (cg.local[p].calls() if p in cg.local else []) if name.startswith("tantivy::IndexWriter::commit")]
+    rep.ob("C14-R6", "load-path-census", n >= 1 and len(commits) >= 1,
+           "%d function(s) on the loading path scanned; the session's own commit is found in %s" % (n, sorted({p for p, _ in commits})))
+
+
 def run(fx, rep, tier):
     rep.assume("tantivy with one indexing thread assigns document ids in insertion order and breaks equal scores by "
                "document address (trusted); rust-embed iterates assets in a fixed order (trusted)")
@@ -248,6 +281,7 @@ def run(fx, rep, tier):
         r2_tokenizer(facts, rep)
         r3_loop(facts, rep)
         r4_insertion_order(facts, rep)
+        r6_one_segment(facts, rep)
         from . import c15
         rep.rule("C14-R5", "every kind of session serves a fully built index (path summary of Db::open_inner shared with C15-R6)")
         c15.r6_session(facts, rep, rule="C14-R5")
